@@ -24,34 +24,34 @@ type LoopSpec struct {
 }
 
 type Contract struct {
-	PkgPath   string // package whose scope is used to resolve names
-	Func      string // function name as printed by ssa (relative to package) or full name for externals
-	Props     []string
-	Requires  []Clause
-	Ensures   []Clause
-	Defines   []Clause // ghost-event definitions: assumed at return (and at call sites), e.g. "TE(result, typ)"
-	Assigns   []string
-	HasAssign bool
-	Loops     map[int]*LoopSpec
-	Pure      bool // no heap effect; result is a deterministic function of the arguments
-	ReadOnly  bool // no heap effect; result unconstrained beyond ensures
-	Trusted   bool // contract is assumed, body not verified (externals, or internal functions marked so)
-	NoReturn  bool // never returns normally
-	Partial   bool // only loop invariants and call-site/load assertions are checked; callee preconditions and safety are assumed
-	TrustedFrame bool // the assigns clause is assumed by callers but not checked against the body
-	TEnsures  []Clause // postconditions assumed by callers but not checked against the body (listed as assumptions)
-	NoSafety  bool // do not generate safe.* obligations (function verified for functional clauses only)
-	Axioms    []Clause // trusted global facts about a pure external function (quantified with gforall)
-	Lemmas    []Clause // assert-style lemmas checked at function entry (pure facts over params)
-	Uses      []string // pure helper function contracts to instantiate (unused for now)
-	File      string
-	Line      int
-	CallAsserts []CallAssert // obligations at call sites of this function's body
-	GhostSets   []GhostSet   // function-local ghost flags set at call sites
-	CallAssumes []CallAssert // "assumecall callee: expr": assumed (not proved) at call sites; listed as an assumption in the evidence
-	LoadAsserts []CallAssert // "assertload Struct.field: expr": obligation where the function takes the address of / reads that field
-	Params    []string // for externals without SSA body: parameter names (recv first)
-	Ghost     map[string]string
+	PkgPath      string // package whose scope is used to resolve names
+	Func         string // function name as printed by ssa (relative to package) or full name for externals
+	Props        []string
+	Requires     []Clause
+	Ensures      []Clause
+	Defines      []Clause // ghost-event definitions: assumed at return (and at call sites), e.g. "TE(result, typ)"
+	Assigns      []string
+	HasAssign    bool
+	Loops        map[int]*LoopSpec
+	Pure         bool     // no heap effect; result is a deterministic function of the arguments
+	ReadOnly     bool     // no heap effect; result unconstrained beyond ensures
+	Trusted      bool     // contract is assumed, body not verified (externals, or internal functions marked so)
+	NoReturn     bool     // never returns normally
+	Partial      bool     // only loop invariants and call-site/load assertions are checked; callee preconditions and safety are assumed
+	TrustedFrame bool     // the assigns clause is assumed by callers but not checked against the body
+	TEnsures     []Clause // postconditions assumed by callers but not checked against the body (listed as assumptions)
+	NoSafety     bool     // do not generate safe.* obligations (function verified for functional clauses only)
+	Axioms       []Clause // trusted global facts about a pure external function (quantified with gforall)
+	Lemmas       []Clause // assert-style lemmas checked at function entry (pure facts over params)
+	Uses         []string // pure helper function contracts to instantiate (unused for now)
+	File         string
+	Line         int
+	CallAsserts  []CallAssert // obligations at call sites of this function's body
+	GhostSets    []GhostSet   // function-local ghost flags set at call sites
+	CallAssumes  []CallAssert // "assumecall callee: expr": assumed (not proved) at call sites; listed as an assumption in the evidence
+	LoadAsserts  []CallAssert // "assertload Struct.field: expr": obligation where the function takes the address of / reads that field
+	Params       []string     // for externals without SSA body: parameter names (recv first)
+	Ghost        map[string]string
 }
 
 // CallAssert: "assertcall callee[cond]: expr" — at every call to callee (where cond over the callee's
@@ -241,7 +241,17 @@ func (cs *ContractSet) ParseFile(path, pkgPath string, ext bool) error {
 					cur.Assigns = append(cur.Assigns, strings.TrimSpace(a))
 				}
 			}
-		case strings.HasPrefix(line, "assertcall "):
+		case strings.HasPrefix(line, "assertcall "), strings.HasPrefix(line, "assertcall@"):
+			// "assertcall@C03,C16 callee[cond]: expr" restricts the obligation to the named properties
+			var caProps []string
+			if strings.HasPrefix(line, "assertcall@") {
+				sp := strings.IndexByte(line, ' ')
+				if sp < 0 {
+					return fmt.Errorf("%s:%d: assertcall needs a callee", path, ln)
+				}
+				caProps = strings.Split(line[11:sp], ",")
+				line = "assertcall " + line[sp+1:]
+			}
 			rest := strings.TrimSpace(line[11:])
 			i := strings.Index(rest, ":")
 			if i < 0 {
@@ -253,7 +263,7 @@ func (cs *ContractSet) ParseFile(path, pkgPath string, ext bool) error {
 				k := strings.Index(rest[j:], ":")
 				head, expr = strings.TrimSpace(rest[:j+1]), strings.TrimSpace(rest[j+k+1:])
 			}
-			ca := CallAssert{Callee: head, Clause: Clause{Text: expr, File: path, Line: ln}}
+			ca := CallAssert{Callee: head, Clause: Clause{Text: expr, Props: caProps, File: path, Line: ln}}
 			if b := strings.Index(head, "["); b >= 0 {
 				ca.Callee, ca.Cond = strings.TrimSpace(head[:b]), strings.TrimSuffix(head[b+1:], "]")
 			}
